@@ -8,6 +8,7 @@ func controls() map[string]string {
 
 import (
 	"log"
+	"math"
 	"sort"
 
 	"github.com/EliCDavis/polyform/modeling"
@@ -251,6 +252,55 @@ func verifControlInputBadSorted(points []vector2.Float64) modeling.Mesh {
 func verifControlInputGoodReadOnly(points []vector2.Float64) modeling.Mesh {
 	log.Println(len(points), points, sort.IsSorted(SortByXComponent(points)))
 	triangulation := bowyerWatson(points)
+	tris := make([]int, 0, len(triangulation)*3)
+	for triangle := range triangulation {
+		tris = append(tris, triangle[0], triangle[1], triangle[2])
+	}
+	verts := make([]vector3.Float64, len(points))
+	for i, p := range points {
+		verts[i] = vector3.New(p.X(), 0, p.Y())
+	}
+	return modeling.NewTriangleMesh(tris).SetFloat3Attribute(modeling.PositionAttribute, verts)
+}
+
+// must fire (DEL-SAME-POINTS): the triangulation is computed on a copy stretched to the unit square (per-axis factors)
+func verifControlPointsBadStretched(points []vector2.Float64) modeling.Mesh {
+	lo := vector2.New(math.Inf(1), math.Inf(1))
+	hi := vector2.New(math.Inf(-1), math.Inf(-1))
+	for _, v := range points {
+		lo = vector2.New(math.Min(v.X(), lo.X()), math.Min(v.Y(), lo.Y()))
+		hi = vector2.New(math.Max(v.X(), hi.X()), math.Max(v.Y(), hi.Y()))
+	}
+	unit := make([]vector2.Float64, len(points))
+	for i, v := range points {
+		unit[i] = vector2.New((v.X()-lo.X())/(hi.X()-lo.X()), (v.Y()-lo.Y())/(hi.Y()-lo.Y()))
+	}
+	triangulation := bowyerWatson(unit)
+	tris := make([]int, 0, len(triangulation)*3)
+	for triangle := range triangulation {
+		tris = append(tris, triangle[0], triangle[1], triangle[2])
+	}
+	verts := make([]vector3.Float64, len(points))
+	for i, p := range points {
+		verts[i] = vector3.New(p.X(), 0, p.Y())
+	}
+	return modeling.NewTriangleMesh(tris).SetFloat3Attribute(modeling.PositionAttribute, verts)
+}
+
+// must stay silent (DEL-SAME-POINTS): one factor for both axes, recentred on the first point
+func verifControlPointsGoodUniform(points []vector2.Float64) modeling.Mesh {
+	lo := vector2.New(math.Inf(1), math.Inf(1))
+	hi := vector2.New(math.Inf(-1), math.Inf(-1))
+	for _, v := range points {
+		lo = vector2.New(math.Min(v.X(), lo.X()), math.Min(v.Y(), lo.Y()))
+		hi = vector2.New(math.Max(v.X(), hi.X()), math.Max(v.Y(), hi.Y()))
+	}
+	scale := 1 / math.Max(hi.X()-lo.X(), hi.Y()-lo.Y())
+	unit := make([]vector2.Float64, len(points))
+	for i := range points {
+		unit[i] = points[i].Sub(lo).Scale(scale)
+	}
+	triangulation := bowyerWatson(unit)
 	tris := make([]int, 0, len(triangulation)*3)
 	for triangle := range triangulation {
 		tris = append(tris, triangle[0], triangle[1], triangle[2])
